@@ -335,6 +335,9 @@ func (g *coreGen) stmt(nest int) ref.Stmt {
 		if op == "/=" && r.K == "float" && r.F == 0 {
 			r = &ref.Expr{K: "float", T: ref.TFloat, F: 2.5, Lit: "2.5"}
 		}
+		if op == "=" && g.chance(12, "float-from-rtime") {
+			return ref.Stmt{K: "set", ID: g.id(), Name: pickS(g, pool.Floats, "ftarget"), Op: "=", E: g.varOf(pool.RTimes, ref.TRTime)}
+		}
 		if g.chance(25, "float-from-int") {
 			r = g.intOperand() // FLOAT op= INTEGER
 			if op == "/=" && r.K == "int" && r.I == 0 {
